@@ -226,7 +226,7 @@ def check(ctx, stmts, workload="gen"):
         # words this file leaves undefined, and for some it defines differently; same registered models
         words = sorted({pw.lstrip("-+") for st in stmts if st["k"] == "Decay" for ln in st["lines"] for pw in ln["params"] if not L.isnum(pw) and L.label_ok(pw.lstrip("-+") or "x")})[:8]
         names_ = [w_ for w_ in words if w_] + ["dm", "CKMgamma"]
-        bad = "".join(f"Define {w_} {0.111 * (k_ + 1):.3f}\n" for k_, w_ in enumerate(names_)) + "Decay B0sig\n1.0 K+ pi- PHSP;\n0.5 K+ K- ;\nEnddecay\n"
+        bad = "".join(f"Define {w_} {0.111 * (k_ + 1):.3f}\n" for k_, w_ in enumerate(names_)) + ctx.rng.choice(["Define oops = 1.0\n", "Decay B0sig\n1.0 K+ pi- PHSP\nEnddecay\n", "Decay B0sig\n1.0 K+ pi- PHSP;\nEnddecay extra\n", "Alias\n"])
         ctx.hit("parse-after-a-text-the-grammar-refused-half-way")
         wit["earlier_refused_text"] = bad
         try:
